@@ -2111,6 +2111,16 @@ def rule_installed_function(ctx: Ctx, rid="C11.INSTALLED-FUNCTION", strict=True,
         from . import liferules as LF0
         life0 = LF0.lifecycle(ctx)
         reached = len(sites) == 1 or (not life0["undecided"] and life0["facts"].get("execs") == 1)
+        if not reached and len(allexec) == 1 and not sites:
+            # the one exec site sits in a method of another class of the package (the generator loads what it generated): it is
+            # reached when recompile, or a helper recompile calls, calls a method of that name on some object
+            owner = next((fn_.name for mod in ctx.src.own_modules() for fn_ in ast.walk(mod.tree)
+                          if isinstance(fn_, (ast.FunctionDef, ast.AsyncFunctionDef)) and any(n_ is allexec[0] for n_ in walk_no_nested(fn_))), None)
+            scope = [rec] + [f_ for f_ in c.body if isinstance(f_, ast.FunctionDef) and any(
+                isinstance(x, ast.Call) and dotted(x.func) == f"{rec.args.args[0].arg}.{f_.name}" for x in ast.walk(rec))]
+            if owner and any(isinstance(x, ast.Call) and isinstance(x.func, ast.Attribute) and x.func.attr == owner
+                             for f_ in scope for x in ast.walk(f_)):
+                reached = True
 
         def _fed_by_generator(call, fn_):
             """exec/eval whose code argument is (compile() of) the text a PythonCodeGen produced, read off the function's own
